@@ -22,7 +22,7 @@ func init() {
 func (c08) ID() string    { return "C08" }
 func (c08) Level() string { return "exploration" }
 func (c08) Rule() string {
-	return "A case is a C01-style seeded history (principals share no keys) in which one actor keeps a persistent cache: it populates the cache at a seeded growth point (or never, or deletes and re-populates it), loses cache commits at seeded points (stale-cache fault: the cache ref is rolled back to an earlier value, as after a crash before the deferred cache commit), restarts, and verifies references in seeded order and modes (full, latest-only, from an entry reached by its own earlier successful verification), repeating verifications and verifying other references first, while other actors keep growing the log (pushes, approvals, policy edits that revoke keys, revocations). Oracle: for every such verification a twin — a fresh process without any cache on a fork of the same store — must return the same verdict class and tip (from-checkpoint is compared with the twin's full verification); the reference listing before and after may differ only in the cache reference. Distinct = distinct (history pattern, cache action sequence, verdict vector); non-trivial = a cache existed and was at least 2 entries older than the log at some verification."
+	return "A case is a C01-style seeded history (principals share no keys) in which one actor keeps a persistent cache: it populates the cache at a seeded growth point (or never, or deletes and re-populates it), loses cache commits at seeded points (stale-cache fault: the cache ref is rolled back to an earlier value, as after a crash before the deferred cache commit), restarts, and verifies references in seeded order and modes (full, latest-only, from an entry reached by its own earlier successful verification, and the mergeability prediction for another branch into main), repeating verifications and verifying other references first, while other actors keep growing the log (pushes, approvals, policy edits that revoke keys, revocations). Oracle: for every such verification a twin — a fresh process without any cache on a fork of the same store — must return the same verdict class and tip (from-checkpoint is compared with the twin's full verification); the reference listing before and after may differ only in the cache reference. Distinct = distinct (history pattern, cache action sequence, verdict vector); non-trivial = a cache existed and was at least 2 entries older than the log at some verification."
 }
 func (c08) Components() map[string]string {
 	return map[string]string{"internal/cache": "real", "internal/policy (cacheSearcher, verifier)": "real", "pkg/rsl (process-wide cache)": "real, one instance per simulated process", "gitstore.Storer": "stub (SimStore; refs/local/* namespaced per process)"}
@@ -87,6 +87,11 @@ func (c08) Generate(r *core.Rand, tier string, idx uint64) *core.Case {
 		if r.Chance(0.35) {
 			n := r.Range(1, 3)
 			for j := 0; j < n; j++ {
+				if r.Chance(0.15) {
+					// the mergeability prediction reads the latest policy and approvals through the same cache
+					add(world.Op{Kind: "verify", Ref: mainRef, Mode: "mergeable", Feature: []string{relRef, openRef}[r.Intn(2)]})
+					continue
+				}
 				add(world.Op{Kind: "verify", Ref: refs[r.Intn(len(refs))], Mode: modes[r.Intn(len(modes))]})
 			}
 		}
@@ -107,6 +112,8 @@ func (c08) Generate(r *core.Rand, tier string, idx uint64) *core.Case {
 			add(world.Op{Kind: "verify", Ref: ref, Mode: m})
 		}
 	}
+	add(world.Op{Kind: "verify", Ref: mainRef, Mode: "mergeable", Feature: relRef})
+	add(world.Op{Kind: "verify", Ref: mainRef, Mode: "mergeable", Feature: openRef})
 	c.Ops = ops
 	c.Config["nDev"] = cfg.nDev
 	c.Config["cacheActor"] = cacheActor
@@ -288,6 +295,9 @@ func (d c08) Execute(c *core.Case) *core.Result {
 				// attribution: does the policy the twin used differ from what a stale cache knows?
 				if pos := l.PositionsForRef(vop.Ref); len(pos) > 0 && cacheLogLen >= 0 {
 					last := pos[len(pos)-1]
+					if vop.Mode == "mergeable" {
+						last = len(w.Entries) // the prediction uses the latest policy and approvals, wherever they are
+					}
 					for j := cacheLogLen; j < last && j < len(w.Entries); j++ {
 						if w.Entries[j].Ref == policyRef {
 							feat = append(feat, "policy-entry-after-cache-point")
